@@ -43,8 +43,14 @@ def main():
             for prop in m["props"]:
                 t0 = time.time()
                 env = dict(os.environ, VERIF_SEED=a.seed)
-                r = subprocess.run([os.path.join(VERIF, "check"), prop, "--tier", a.tier], cwd=VERIF, env=env,
-                                   stdout=subprocess.PIPE, stderr=subprocess.STDOUT, text=True)
+                try:
+                    r = subprocess.run([os.path.join(VERIF, "check"), prop, "--tier", a.tier], cwd=VERIF, env=env,
+                                       stdout=subprocess.PIPE, stderr=subprocess.STDOUT, text=True, timeout=900)
+                except subprocess.TimeoutExpired:
+                    sh("pkill -f '/verif/.work/.*t.bin'")
+                    print("%-40s %-4s HANG" % (m["id"], prop))
+                    results["%s|%s" % (m["id"], prop)] = {"status": "HANG", "what": m.get("what", "")}
+                    continue
                 viol = [l for l in r.stdout.splitlines() if l.startswith("VIOLATION")]
                 fail = [l for l in r.stdout.splitlines() if l.startswith("failure:")]
                 status = "KILLED" if (r.returncode == 1 and viol) else ("INFRA" if r.returncode == 2 else "SURVIVED")
